@@ -476,7 +476,9 @@ Lemma mappend_lit_spec g dst data st :
     (* the bytes of an existing block in front of the end of dst are not touched *)
     (forall s, sl_blk s < length (st_heap st) ->
        (sl_blk s = sl_blk dst -> sl_off s + sl_len s <= sl_off dst + sl_len dst) ->
-       mread_bytes (st_heap st') s = mread_bytes (st_heap st) s).
+       mread_bytes (st_heap st') s = mread_bytes (st_heap st) s) /\
+    (* existing blocks do not shrink *)
+    (forall b, b < length (st_heap st) -> length (hblock (st_heap st) b) <= length (hblock (st_heap st') b)).
 Proof.
   intros HD NE.
   set (h := st_heap st) in *.
@@ -512,6 +514,11 @@ Proof.
       - assumption.
       - rewrite HB. unfold set_at. rewrite !app_length, firstn_length_le, skipn_length by lia. lia. }
     split; [right; split; [reflexivity|lia]|].
+    split.
+    2:{ intros b Hb. destruct (Nat.eq_dec b (sl_blk dst)) as [EQ|NEQ].
+        - subst b. rewrite HB. fold B. unfold set_at.
+          rewrite !app_length, firstn_length_le, skipn_length by lia. lia.
+        - rewrite HO by assumption. lia. }
     intros s SB SBelow.
     destruct (Nat.eq_dec (sl_blk s) (sl_blk dst)) as [EQ|NEQ].
     + specialize (SBelow EQ). unfold mread_bytes. rewrite EQ, HB. fold B. unfold set_at.
@@ -542,7 +549,9 @@ Proof.
       - unfold new_cap. lia.
       - rewrite hblock_app_new, !app_length, length_zeros. unfold new_cap. lia. }
     split; [left; reflexivity|].
-    intros s SB _. apply mread_same_block. apply hblock_app_old. assumption.
+    split.
+    + intros s SB _. apply mread_same_block. apply hblock_app_old. assumption.
+    + intros b Hb. rewrite hblock_app_old by assumption. lia.
 Qed.
 
 Lemma mappend_spec g dst src st :
@@ -557,7 +566,7 @@ Lemma mappend_spec g dst src st :
 Proof.
   intros HD NE. unfold mappend.
   destruct (mappend_lit_spec g dst (mread_bytes (st_heap st) src) (log_read src st) HD NE)
-    as (st' & d & EQ & A & B & C & D & E & _).
+    as (st' & d & EQ & A & B & C & D & E & _ & _).
   rewrite EQ. exists st', d. cbn [log_read log_acc st_heap] in *.
   split; [reflexivity|]. split; [exact A|]. split; [exact B|]. split; [exact C|]. split; [exact D|exact E].
 Qed.
@@ -1633,6 +1642,18 @@ Definition delim_rel (h : heap) (n0 : nat) (input : slice) (m : mdelim) (p : del
   | _, _ => False
   end.
 
+(* existing blocks do not shrink from h to h' *)
+Definition noshrink (h h' : heap) : Prop :=
+  forall b, b < length h -> length (hblock h b) <= length (hblock h' b).
+
+Lemma noshrink_refl h : noshrink h h.
+Proof. intros b _. lia. Qed.
+
+Lemma wf_noshrink h h' s : length h <= length h' -> noshrink h h' -> wf_slice h s -> wf_slice h' s.
+Proof.
+  intros L NS (WB & WL & WC). repeat split; auto; try lia. specialize (NS _ WB). lia.
+Qed.
+
 (* bytes of existing blocks in front of the end of [input] are stable from h to h' *)
 Definition stable_below (h h' : heap) (input : slice) : Prop :=
   forall s, sl_blk s < length h ->
@@ -1645,6 +1666,7 @@ Lemma parse_delimiter_mem_refines n0 g input st :
   firstn n0 (st_heap (fst r)) = firstn n0 (st_heap st) /\
   length (st_heap st) <= length (st_heap (fst r)) /\
   stable_below (st_heap st) (st_heap (fst r)) input /\
+  noshrink (st_heap st) (st_heap (fst r)) /\
   delim_rel (st_heap st) n0 input (snd r) (parse_delimiter (mread_bytes (st_heap st) input)).
 Proof.
   intros LN S A r RE.
@@ -1655,7 +1677,7 @@ Proof.
     assert (NIL : mread_bytes (st_heap st) input = []).
     { apply length_zero_iff_nil. lia. }
     rewrite NIL. cbn [parse_delimiter delim_rel].
-    split; [reflexivity|]. split; [lia|]. split; [intros s _ _; reflexivity|].
+    split; [reflexivity|]. split; [lia|]. split; [intros s _ _; reflexivity|]. split; [apply noshrink_refl|].
     repeat split; auto; try lia; try (rewrite Z; reflexivity). }
   apply Nat.eqb_neq in Z.
   assert (W : wf_slice (st_heap st) input) by (destruct A as [[_ L0]|W]; [lia|exact W]).
@@ -1690,20 +1712,20 @@ Proof.
      exists st2 delim,
        (if Nat.leb 10 l then (st1, head) else mappend_lit g head (zeros (10 - l)) st1) = (st2, delim) /\
        firstn n0 (st_heap st2) = firstn n0 h /\ length h <= length (st_heap st2) /\
-       stable_below h (st_heap st2) input /\
+       stable_below h (st_heap st2) input /\ noshrink h (st_heap st2) /\
        mread_bytes (st_heap st2) delim = firstn 10 ib ++ zeros (10 - l) /\
        (uvarint (firstn 10 ib) = UvShort -> Nat.ltb l 10 = false ->
         mread_bytes (st_heap st2) delim = firstn 10 ib)).
   { intros st1 H1. destruct (Nat.leb 10 l) eqn:E10.
     - apply Nat.leb_le in E10. exists st1, head. split; [reflexivity|]. rewrite H1.
-      split; [reflexivity|]. split; [lia|]. split; [intros s _ _; reflexivity|].
+      split; [reflexivity|]. split; [lia|]. split; [intros s _ _; reflexivity|]. split; [apply noshrink_refl|].
       replace (10 - l) with 0 by lia. rewrite zeros_0, app_nil_r. split; [exact HB|]. intros _ _. exact HB.
     - apply Nat.leb_gt in E10.
       assert (LL : l = sl_len input) by (unfold l; lia).
       assert (WH : wf_slice (st_heap st1) head).
       { rewrite H1. unfold head. repeat split; cbn [sl_blk sl_off sl_len sl_cap]; auto; lia. }
       destruct (mappend_lit_spec g head (zeros (10 - l)) st1 (or_intror WH) (zeros_nonempty (10 - l) ltac:(lia)))
-        as (st2 & d & EQ & L2 & FR & RD & WF & BLK & BELOW).
+        as (st2 & d & EQ & L2 & FR & RD & WF & BLK & BELOW & NOSH).
       assert (SH : safe n0 head) by (eapply safe_mslice2; [exact S|apply mslice2_ok; lia]).
       destruct (mappend_lit_ext n0 g head (zeros (10 - l)) st1 ltac:(rewrite H1; exact LN) SH) as [(E1 & _) _].
       rewrite EQ in E1. cbn [fst] in E1.
@@ -1711,11 +1733,11 @@ Proof.
       split; [exact E1|]. split; [exact L2|]. split.
       + intros s SB SBelow. apply BELOW; [exact SB|].
         unfold head. cbn [sl_blk sl_off sl_len]. intros EQB. specialize (SBelow ltac:(lia) EQB). lia.
-      + split; [rewrite RD, HB; reflexivity|].
+      + split; [exact NOSH|]. split; [rewrite RD, HB; reflexivity|].
         intros _ K. apply Nat.ltb_ge in K. lia. }
   destruct (uvarint (firstn 10 ib)) as [v c| |] eqn:UV.
   - (* a complete varint *)
-    destruct (PAD (log_read head st) eq_refl) as (st2 & delim & EQ & E2 & L2 & SB2 & RD & _).
+    destruct (PAD (log_read head st) eq_refl) as (st2 & delim & EQ & E2 & L2 & SB2 & NS2 & RD & _).
     cbn [negb] in RE. rewrite EQ in RE. rewrite RD in RE.
     assert (RU : read_uvarint (firstn 10 ib ++ zeros (10 - l)) =
                  Ok (u64 v, skipn c (firstn 10 ib ++ zeros (10 - l)))).
@@ -1726,7 +1748,7 @@ Proof.
     destruct (Nat.leb n (length ib)) eqn:NL.
     + apply Nat.leb_le in NL. rewrite (mslice2_ok input n (sl_len input)) in RE by lia.
       subst r. cbn [fst snd log_read log_acc st_heap]. split; [exact E2|]. split; [exact L2|].
-      split; [exact SB2|]. cbn [delim_rel].
+      split; [exact SB2|]. split; [exact NS2|]. cbn [delim_rel].
       set (rest := mk_slice _ _ _ _).
       assert (MR : mslice2 input n (sl_len input) = Ok rest) by (apply mslice2_ok; lia).
       split; [reflexivity|]. split; [apply (mread_mslice2_from h input n rest MR)|].
@@ -1738,23 +1760,208 @@ Proof.
       assert (MF : mslice2 input n (sl_len input) = Fault).
       { unfold mslice2. rewrite (proj2 (Nat.leb_gt n (sl_len input))) by lia. reflexivity. }
       rewrite MF in RE. subst r. cbn [fst snd log_read log_acc st_heap].
-      split; [exact E2|]. split; [exact L2|]. split; [exact SB2|exact I].
+      split; [exact E2|]. split; [exact L2|]. split; [exact SB2|]. split; [exact NS2|exact I].
   - (* the input ends inside the varint *)
     destruct (Nat.ltb l 10) eqn:L10.
     + subst r. cbn [fst snd log_read log_acc st_heap]. fold h.
-      split; [reflexivity|]. split; [lia|]. split; [intros s _ _; reflexivity|exact I].
-    + destruct (PAD (log_read head st) eq_refl) as (st2 & delim & EQ & E2 & L2 & SB2 & _ & RD).
+      split; [reflexivity|]. split; [lia|]. split; [intros s _ _; reflexivity|]. split; [apply noshrink_refl|exact I].
+    + destruct (PAD (log_read head st) eq_refl) as (st2 & delim & EQ & E2 & L2 & SB2 & NS2 & _ & RD).
       rewrite EQ in RE. rewrite (RD eq_refl eq_refl) in RE.
       assert (RU : read_uvarint (firstn 10 ib) = Err).
       { unfold read_uvarint. rewrite firstn_firstn, Nat.min_id, UV. reflexivity. }
       rewrite RU in RE. subst r. cbn [fst snd log_read log_acc st_heap].
-      split; [exact E2|]. split; [exact L2|]. split; [exact SB2|exact I].
+      split; [exact E2|]. split; [exact L2|]. split; [exact SB2|]. split; [exact NS2|exact I].
   - (* overflow *)
-    destruct (PAD (log_read head st) eq_refl) as (st2 & delim & EQ & E2 & L2 & SB2 & RD & _).
+    destruct (PAD (log_read head st) eq_refl) as (st2 & delim & EQ & E2 & L2 & SB2 & NS2 & RD & _).
     cbn [negb] in RE. rewrite EQ in RE. rewrite RD in RE.
     assert (RU : read_uvarint (firstn 10 ib ++ zeros (10 - l)) = Err).
     { unfold read_uvarint. rewrite firstn_all2 by (rewrite app_length, length_zeros, LH; lia).
       unfold uvarint in *. rewrite uvarint_go_app by (rewrite UV; discriminate). rewrite UV. reflexivity. }
     rewrite RU in RE. subst r. cbn [fst snd log_read log_acc st_heap].
-    split; [exact E2|]. split; [exact L2|]. split; [exact SB2|exact I].
+    split; [exact E2|]. split; [exact L2|]. split; [exact SB2|]. split; [exact NS2|exact I].
+Qed.
+
+(* ---- parseRawData ---- *)
+
+Lemma noshrink_trans a b c : length a <= length b -> noshrink a b -> noshrink b c -> noshrink a c.
+Proof. intros L H1 H2 x Hx. specialize (H1 x Hx). specialize (H2 x ltac:(lia)). lia. Qed.
+
+Lemma parse_raw_data_mem_refines n0 g : forall fuel raw st,
+  n0 <= length (st_heap st) -> safe n0 raw -> acc_ok (st_heap st) raw ->
+  forall r, r = parse_raw_data_mem g fuel raw st ->
+  firstn n0 (st_heap (fst r)) = firstn n0 (st_heap st) /\
+  length (st_heap st) <= length (st_heap (fst r)) /\
+  stable_below (st_heap st) (st_heap (fst r)) raw /\
+  noshrink (st_heap st) (st_heap (fst r)) /\
+  outcome_rel (Forall2 (fun u pu => mread_bytes (st_heap (fst r)) u = pu)) (snd r)
+              (parse_raw_data fuel (mread_bytes (st_heap st) raw)).
+Proof.
+  induction fuel as [|f IH]; intros raw st LN S A r RE.
+  - subst r. cbn [parse_raw_data_mem parse_raw_data fst snd outcome_rel].
+    split; [reflexivity|]. split; [lia|]. split; [intros s _ _; reflexivity|].
+    split; [apply noshrink_refl|exact I].
+  - cbn [parse_raw_data_mem parse_raw_data] in *.
+    destruct (parse_delimiter_mem_refines n0 g raw st LN S A _ eq_refl) as (E1 & L1 & SB1 & NS1 & DR).
+    set (h := st_heap st) in *. set (ib := mread_bytes h raw) in *.
+    destruct (parse_delimiter_mem g raw st) as [st1 m]. cbn [fst snd] in *.
+    destruct m as [actual ul| | |], (parse_delimiter ib) as [pactual pul| | |] eqn:PD;
+      cbn [delim_rel] in DR; try contradiction;
+      try (subst r; cbn [fst snd outcome_rel]; repeat split; auto; try constructor; fail).
+    destruct DR as (-> & RA & LA & SA & AA & BE).
+    destruct (N.eqb pul 0) eqn:Z0.
+    { subst r. cbn [fst snd outcome_rel]. repeat split; auto; try constructor. }
+    assert (LAN : lenN pactual = N.of_nat (sl_len actual)) by (unfold lenN; rewrite LA; reflexivity).
+    rewrite LAN.
+    destruct (N.ltb (N.of_nat (sl_len actual)) pul) eqn:LT.
+    { subst r. cbn [fst snd outcome_rel]. repeat split; auto; try constructor. }
+    apply N.ltb_ge in LT. apply N.eqb_neq in Z0.
+    set (k := N.to_nat pul) in *.
+    assert (KL : k <= sl_len actual) by (unfold k; lia).
+    assert (KP : 0 < k) by (unfold k; lia).
+    assert (WA : wf_slice h actual) by (destruct AA as [[_ L0]|W]; [lia|exact W]).
+    assert (RAWPOS : 0 < sl_len raw).
+    { destruct (Nat.eq_dec (sl_len raw) 0) as [E0|]; [|lia]. exfalso.
+      assert (NIL : ib = []).
+      { apply length_zero_iff_nil. unfold ib. rewrite acc_ok_len by assumption. exact E0. }
+      rewrite NIL in PD. cbn in PD. inversion PD; subst. apply Z0. reflexivity. }
+    destruct (BE RAWPOS) as [BB BO].
+    destruct WA as (WAB & WAL & WAC).
+    rewrite (mslice2_ok actual k (sl_len actual)) in RE by lia.
+    rewrite (mslice2_ok actual 0 k) in RE by lia.
+    set (rest := mk_slice (sl_blk actual) (sl_off actual + k) (sl_len actual - k) (sl_cap actual - k)) in *.
+    set (unit := mk_slice (sl_blk actual) (sl_off actual + 0) (k - 0) (sl_cap actual - 0)) in *.
+    assert (MR : mslice2 actual k (sl_len actual) = Ok rest) by (apply mslice2_ok; lia).
+    assert (MU : mslice2 actual 0 k = Ok unit) by (apply mslice2_ok; lia).
+    assert (LN1 : n0 <= length (st_heap st1)) by lia.
+    assert (SR : safe n0 rest) by (eapply safe_mslice2; [exact SA|exact MR]).
+    assert (WR : wf_slice h rest) by (eapply wf_mslice2; [|exact MR]; repeat split; assumption).
+    assert (AR1 : acc_ok (st_heap st1) rest) by (right; eapply wf_noshrink; eassumption).
+    (* reads of rest and unit are the same in h and in the heap after the delimiter *)
+    assert (RR1 : mread_bytes (st_heap st1) rest = dropN pul pactual).
+    { rewrite SB1.
+      - unfold dropN. fold k. rewrite <- RA. apply (mread_mslice2_from h actual k rest MR).
+      - exact WAB.
+      - intros _ _. unfold rest. cbn [sl_blk sl_off sl_len]. lia. }
+    assert (RU1 : mread_bytes (st_heap st1) unit = takeN pul pactual).
+    { rewrite SB1.
+      - unfold takeN. fold k. rewrite <- RA.
+        rewrite (mread_mslice2 h actual 0 k unit MU KL). rewrite skipn_O, Nat.sub_0_r. reflexivity.
+      - exact WAB.
+      - intros _ _. unfold unit. cbn [sl_blk sl_off sl_len]. lia. }
+    unfold mbind in RE.
+    destruct (IH rest st1 LN1 SR AR1 _ eq_refl) as (E2 & L2 & SB2 & NS2 & REL).
+    rewrite RR1 in REL.
+    destruct (parse_raw_data_mem g f rest st1) as [st2 o]. cbn [fst snd] in *.
+    assert (COMMON : firstn n0 (st_heap st2) = firstn n0 h /\ length h <= length (st_heap st2) /\
+                     stable_below h (st_heap st2) raw /\ noshrink h (st_heap st2)).
+    { split; [congruence|]. split; [lia|]. split.
+      - intros s SBk SBelow. rewrite SB2.
+        + apply SB1; assumption.
+        + lia.
+        + intros _ EQB. unfold rest in EQB |- *. cbn [sl_blk sl_off sl_len] in *.
+          specialize (SBelow RAWPOS ltac:(congruence)). lia.
+      - eapply noshrink_trans; eassumption. }
+    destruct COMMON as (C1 & C2 & C3 & C4).
+    destruct o as [us| |], (parse_raw_data f (dropN pul pactual)) as [pus| |];
+      cbn [outcome_rel bind] in *; try contradiction;
+      subst r; cbn [fst snd mret outcome_rel]; repeat split; auto.
+    constructor; [|exact REL].
+    rewrite SB2; [exact RU1|unfold unit; cbn [sl_blk]; lia|].
+    intros _ _. unfold unit, rest. cbn [sl_blk sl_off sl_len]. lia.
+Qed.
+
+(* ---- ParseTxs ---- *)
+
+Lemma mmap_mread_spec : forall l st,
+  st_heap (fst (mmap mread l st)) = st_heap st /\
+  snd (mmap mread l st) = Ok (map (mread_bytes (st_heap st)) l).
+Proof.
+  induction l as [|s l IH]; intros st; [split; reflexivity|].
+  destruct (IH (log_read s st)) as [H1 R1]. cbn [log_read log_acc st_heap] in H1, R1.
+  assert (E : mmap mread (s :: l) st =
+              (fst (mmap mread l (log_read s st)),
+               Ok (mread_bytes (st_heap st) s :: map (mread_bytes (st_heap st)) l))).
+  { cbn [mmap]. unfold mbind.
+    change (mread s st) with (log_read s st, Ok (mread_bytes (st_heap st) s)). cbv iota beta.
+    destruct (mmap mread l (log_read s st)) as [st1 o]. cbn [fst snd] in *. subst o. reflexivity. }
+  rewrite E. cbn [fst snd map]. split; [exact H1|reflexivity].
+Qed.
+
+Theorem parse_txs_mem_refines : forall g h views,
+  Forall (view_ok h) views ->
+  snd (parse_txs_mem g views (mk_st h [])) = parse_txs (map (mread_bytes h) views).
+Proof.
+  intros g h views FV. unfold parse_txs_mem, parse_txs.
+  destruct views as [|v0 tl]; [reflexivity|].
+  set (views := v0 :: tl) in *. cbn [map]. change (mread_bytes h v0 :: map (mread_bytes h) tl) with (map (mread_bytes h) views).
+  destruct (mmap_mread_spec views (mk_st h [])) as [H1 R1]. cbn [st_heap] in *.
+  unfold mbind at 1. destruct (mmap mread views (mk_st h [])) as [st1 o1]. cbn [fst snd] in *. subst o1.
+  destruct (map (mread_bytes h) views) as [|s0 shs] eqn:EM; [discriminate EM|]. rewrite <- EM. clear EM s0 shs.
+  destruct (negb (forallb (fun s => N.eqb (sh_version s) 0) (map (mread_bytes h) views))); [reflexivity|].
+  assert (EH1 : firstn (length h) (st_heap st1) = h) by (rewrite H1; apply firstn_all).
+  destruct (extract_raw_data_mem_refines_gen g h views false st1 nil_slice EH1 FV
+              (safe_nil _) (or_introl (conj eq_refl eq_refl)) _ eq_refl) as [EH2 REL].
+  unfold mbind at 1.
+  destruct (extract_raw_data_mem g false views nil_slice st1) as [st2 o2]. cbn [fst snd] in *.
+  destruct o2 as [raw| |], (extract_raw_data false (map (mread_bytes h) views)) as [pr| |];
+    cbn [outcome_rel bind] in *; try contradiction; try reflexivity.
+  destruct REL as (SR & AR & RR). rewrite mread_nil in RR. cbn [app] in RR.
+  assert (LN2 : length h <= length (st_heap st2)).
+  { rewrite <- EH2 at 1. rewrite firstn_length. lia. }
+  destruct (parse_raw_data_mem_refines (length h) g (S (sl_len raw)) raw st2 LN2 SR AR _ eq_refl)
+    as (_ & _ & _ & _ & REL).
+  rewrite RR in REL. rewrite <- RR at 1. rewrite acc_ok_len by assumption.
+  unfold mbind.
+  destruct (parse_raw_data_mem g (S (sl_len raw)) raw st2) as [st3 o3]. cbn [fst snd] in *.
+  destruct o3 as [units| |], (parse_raw_data (S (sl_len raw)) pr) as [punits| |];
+    cbn [outcome_rel] in *; try contradiction; try reflexivity.
+  destruct (mmap_mread_spec units st3) as [_ R3]. rewrite R3. f_equal.
+  clear R3. induction REL as [|u pu us pus UR _ IHR]; cbn [map]; [reflexivity|]. rewrite UR, IHR. reflexivity.
+Qed.
+
+Theorem parse_txs_mem_correct : forall g h views,
+  run_read_only (parse_txs_mem g views) h /\
+  (Forall (view_ok h) views ->
+   snd (parse_txs_mem g views (mk_st h [])) = parse_txs (map (mread_bytes h) views)).
+Proof.
+  intros. split; [apply parse_txs_mem_readonly|apply parse_txs_mem_refines].
+Qed.
+
+(* ---- non-vacuity of the refinements of section 6 ---- *)
+
+(* Sequence.RawData on the three views of the D7 witness returns the 1200 data bytes *)
+Example sequence_raw_data_mem_witness :
+  snd (sequence_raw_data_mem grow_double d7_views (mk_st [d7_arena] [])) = Ok (b_data d7_blob).
+Proof. vm_compute. reflexivity. Qed.
+
+(* one 1424-byte transaction = three compact shares in ONE block, whose delimited
+   length (1426) leaves 4 zero bytes at the end of the raw data: parseDelimiter is then
+   called on a 4-byte input and appends 6 zero bytes IN PLACE - into the spare capacity
+   of the private buffer (block 3), behind the raw data; the arena (block 0) is untouched *)
+Definition txw_tx : bytes := repeat Byte.x42 1424.
+Definition txw_shares : list share :=
+  match bind (bind (new_csplitter tx_ns 0%N) (fun c => cs_write_tx c txw_tx)) cs_export with
+  | Ok (_, shs) => shs
+  | _ => []
+  end.
+Definition txw_arena : bytes := concat txw_shares.
+Definition txw_views : list slice :=
+  [mk_slice 0 0 512 1536; mk_slice 0 512 512 1024; mk_slice 0 1024 512 512].
+
+Example parse_txs_mem_witness :
+  let r := parse_txs_mem grow_double txw_views (mk_st [txw_arena] []) in
+  Forall (view_ok [txw_arena]) txw_views /\
+  map (mread_bytes [txw_arena]) txw_views = txw_shares /\
+  snd r = Ok [txw_tx] /\
+  firstn 1 (st_heap (fst r)) = [txw_arena] /\
+  map (@length byte) (st_heap (fst r)) = [1536; 474; 952; 1904] /\
+  existsb (fun a => match a_kind a with
+                    | AW => Nat.eqb (a_blk a) 3 && Nat.eqb (a_off a) 1430 && Nat.eqb (a_len a) 6
+                    | AR => false
+                    end) (st_log (fst r)) = true.
+Proof.
+  cbv zeta. split; [apply views_okb_ok; vm_compute; reflexivity|].
+  split; [vm_compute; reflexivity|]. split; [vm_compute; reflexivity|].
+  split; [apply (parse_txs_mem_readonly grow_double [txw_arena] txw_views)|].
+  split; vm_compute; reflexivity.
 Qed.
